@@ -2,6 +2,8 @@
      api     <umask> <rd> <inF> <outF> <dir> <inos>      rd/inF/outF = "<entry>.<spelling>" or "-"
      copy    <umask> <src> <dst> <dir> <inos>
      wr      <umask> <path> <dir> <inos>
+     image   <umask> <in1,in2,…> <out> <dir> <inos>   image mode of grid / n-up / booklet (alias check over all inputs)
+     import  <umask> <in1,in2,…> <out> <dir> <inos>   import images
      aliases <in> <out> <dir> <inos>              -> true | false
    dir  = "<entry>:f:<inode>;<entry>:l:<target entry>;…"     inos = "<inode>:<mode>:<hex bytes>;…"
    The body of api is  read, write 02, read;  wr writes 02.
@@ -63,6 +65,12 @@ let dispatch fn args = match fn, args with
   | "wr", [um; path; d; i] ->
     let s0 = mk_state (dir_of d) (inos_of i) in
     render s0 None (run_write_reader_i (n_of_hex um) (sp_exn path) [BWrite [n_of_int 2]] s0)
+  | "image", [um; ins; out; d; i] ->
+    let s0 = mk_state (dir_of d) (inos_of i) in
+    render s0 None (run_multi_image_i (n_of_hex um) (List.map sp_exn (split ',' ins)) (sp_exn out) [BWrite [n_of_int 2]] s0)
+  | "import", [um; ins; out; d; i] ->
+    let s0 = mk_state (dir_of d) (inos_of i) in
+    render s0 None (run_import_images_i (n_of_hex um) (List.map sp_exn (split ',' ins)) (sp_exn out) [BWrite [n_of_int 2]] s0)
   | "aliases", [a; b; d; i] ->
     str_of_bool (run_aliases (sp_exn a) (sp_exn b) (mk_state (dir_of d) (inos_of i)))
   | _ -> failwith ("unknown function " ^ fn)
